@@ -406,6 +406,7 @@ func (m *Mint) MintTokens(mintTokensRequest nut04.PostMintBolt11Request) (cashu.
 	case nut04.Pending:
 		return nil, cashu.QuotePending
 	case nut04.Paid:
+		previousState := mintQuote.State
 		err := func() error {
 			// set quote as pending while validating blinded messages and signing
 			err = m.db.UpdateMintQuoteState(mintQuote.Id, nut04.Pending)
@@ -493,7 +494,7 @@ func (m *Mint) MintTokens(mintTokensRequest nut04.PostMintBolt11Request) (cashu.
 
 		// update mint quote to previous state if there was an error
 		if err != nil {
-			if err := m.db.UpdateMintQuoteState(mintQuote.Id, mintQuote.State); err != nil {
+			if err := m.db.UpdateMintQuoteState(mintQuote.Id, previousState); err != nil {
 				return nil, err
 			}
 			return nil, err
